@@ -12,7 +12,7 @@ import (
 func init() { register("C14", true, runC14) }
 
 func runC14(c *Check) {
-	c.Explanation = "Decides only structural clauses of C14 (which group of a pattern means what, and all value arithmetic, are out of static reach): for every legacy text pattern, the capture groups used after a match are within the arity of the pattern and every length test on a match equals groups+1, so a group added to or removed from a pattern cannot silently shift the fields that are read (R1); every legacy parser adds samples only by appending a new sample to the end of the list, so samples appear in input order (R2); every text parser's successful return passes through the trailing memory-map section parser, the binary CPU parser through ParseMemoryMap, the Java parsers through parseJavaLocations, and those always finish with location, function and mapping renumbering (R3); the contention count's multiplication by the period does not depend on the cycle frequency (R4); no integer quotient is converted to floating point in the legacy scaling code (R5). Not decided: values, scaling, address adjustment, label contents, mapping heuristics."
+	c.Explanation = "Decides only structural clauses of C14 (which group of a pattern means what, and all value arithmetic, are out of static reach): for every legacy text pattern, the capture groups used after a match are within the arity of the pattern and every length test on a match equals groups+1, so a group added to or removed from a pattern cannot silently shift the fields that are read (R1); every legacy parser adds samples only by appending a new sample to the end of the list, so samples appear in input order (R2); every text parser's successful return passes through the trailing memory-map section parser, the binary CPU parser through ParseMemoryMap, the Java parsers through parseJavaLocations, and those always finish with location, function and mapping renumbering (R3); the contention count's multiplication by the period does not depend on the cycle frequency (R4); no integer quotient is converted to floating point in the legacy scaling code (R5); the binary CPU parser removes a sample's second frame only after comparing its address with the shared one (R6); every string attribute that adjacent() lets differ by emptiness is carried over when ranges are merged (R7). Not decided: values, scaling, address adjustment, label contents, mapping heuristics."
 	p := c.P
 	g := newGuardEngine(p)
 	legacy := func(f *ssa.Function) bool {
@@ -205,6 +205,110 @@ func runC14(c *Check) {
 	}
 	c.periodScaling()
 	c.floatQuotients(legacy)
+	c.signalFrameRemoval()
+	c.mergedMappingAttributes()
+}
+
+// signalFrameRemoval (R6): the binary CPU parser removes the frame at position 1 only from
+// the samples that actually have the shared signal-handler address there.  The re-slice
+// of Sample.Location in cpuProfile is dominated by the taken branch of an equality test
+// on that sample's Location.Address.
+func (c *Check) signalFrameRemoval() {
+	p := c.P
+	f := c.anchorFn("C14-R6", "profile", "cpuProfile")
+	if f == nil {
+		return
+	}
+	n := 0
+	for _, b := range f.Blocks {
+		for _, ins := range b.Instrs {
+			st, ok := ins.(*ssa.Store)
+			if !ok {
+				continue
+			}
+			fa, ok := st.Addr.(*ssa.FieldAddr)
+			if !ok {
+				continue
+			}
+			if T, F := fieldOf(fa.X.Type(), fa.Field); T != "profile.Sample" || F != "Location" {
+				continue
+			}
+			if _, fresh := fa.X.(*ssa.Alloc); fresh {
+				continue
+			}
+			n++
+			guarded := false
+			for d, child := b.Idom(), b; d != nil; child, d = d, d.Idom() {
+				iff, ok := d.Instrs[len(d.Instrs)-1].(*ssa.If)
+				if !ok || d.Succs[0] != child || len(child.Preds) != 1 {
+					continue
+				}
+				if cmp, ok := iff.Cond.(*ssa.BinOp); ok && cmp.Op == token.EQL && (isFieldLoad(cmp.X, "profile.Location", "Address") || isFieldLoad(cmp.Y, "profile.Location", "Address")) {
+					guarded = true
+				}
+			}
+			if guarded {
+				c.ok("C14-R6", "signal-frame", p.relFile(st.Pos()), "the shared frame is removed only where it is present", "the re-slice of Sample.Location is dominated by an equality test on that sample's frame address")
+			} else {
+				c.bad("C14-R6", "signal-frame", p.relFile(st.Pos()), "cpuProfile removes the second frame of a sample without comparing its address with the shared signal-handler address: samples that do not contain that frame lose a real caller")
+			}
+		}
+	}
+	if n == 0 {
+		c.undecided("C14-R6", "signal-frame", p.relFile(f.Pos()), "cpuProfile no longer re-slices Sample.Location")
+	}
+}
+
+// mergedMappingAttributes (R7): adjacent() lets two ranges merge when an identifying
+// string attribute (file name, build id) is empty on one side; massageMappings must then
+// carry every such attribute over to the surviving mapping.  The set of string fields
+// adjacent() reads is the reference; each must be stored into the surviving mapping in the
+// merge branch.
+func (c *Check) mergedMappingAttributes() {
+	p := c.P
+	adj := c.anchorFn("C14-R7", "profile", "adjacent")
+	mm := c.anchorFn("C14-R7", "profile", "(*Profile).massageMappings")
+	if adj == nil || mm == nil {
+		return
+	}
+	attrs := map[string]bool{}
+	for _, b := range adj.Blocks {
+		for _, ins := range b.Instrs {
+			if fa, ok := ins.(*ssa.FieldAddr); ok {
+				if T, F := fieldOf(fa.X.Type(), fa.Field); T == "profile.Mapping" {
+					if bt, ok := fa.Type().(*types.Pointer).Elem().Underlying().(*types.Basic); ok && bt.Kind() == types.String {
+						attrs[F] = true
+					}
+				}
+			}
+		}
+	}
+	if len(attrs) == 0 {
+		c.undecided("C14-R7", "merge-attrs", p.relFile(adj.Pos()), "adjacent() reads no string attribute of Mapping")
+		return
+	}
+	stored := map[string]bool{}
+	for _, b := range mm.Blocks {
+		for _, ins := range b.Instrs {
+			st, ok := ins.(*ssa.Store)
+			if !ok {
+				continue
+			}
+			if fa, ok := st.Addr.(*ssa.FieldAddr); ok {
+				if T, F := fieldOf(fa.X.Type(), fa.Field); T == "profile.Mapping" && fieldLoadOf(st.Val, "profile.Mapping", F) {
+					stored[F] = true
+				}
+			}
+		}
+	}
+	for _, F := range sortedBoolKeys(attrs) {
+		key := "merge-attrs:" + F
+		if stored[F] {
+			c.ok("C14-R7", key, p.relFile(mm.Pos()), "Mapping."+F+" is carried over when adjacent ranges are merged", "adjacent() tolerates an empty "+F+" on one side and massageMappings copies it to the surviving mapping")
+		} else {
+			c.bad("C14-R7", key, p.relFile(mm.Pos()), "adjacent() merges two ranges when Mapping."+F+" is empty on one of them, but massageMappings no longer copies "+F+" to the surviving mapping: a memory map that lists a binary as two adjacent ranges loses the "+F+" given on the second")
+		}
+	}
 }
 
 // periodScaling (R4): contention counts are multiplied by the sampling period whenever a
